@@ -197,6 +197,18 @@ def run_case(case, ctx):
     text = f.getvalue()
     if not comments:
         text = "\n".join(l.split("#")[0].rstrip() if "#" in l else l for l in text.split("\n"))
+    if case.get("s", 0) % 4 == 1 and "\nMasses\n" in text:
+        # the masses in exponent notation (%e / %E, as another program's writer may print them): the same numbers
+        head, rest = text.split("\nMasses\n", 1)
+        lines = rest.split("\n")
+        k = 1
+        while k < len(lines) and lines[k].strip():
+            tok = lines[k].split()
+            tok[1] = ("%.8e" if case["s"] % 8 == 1 else "%.8E") % float(tok[1])
+            lines[k] = " ".join(tok)
+            k += 1
+        text = head + "\nMasses\n" + "\n".join(lines)
+        st.count("files_with_masses_in_exponent_notation")
     if case.get("s", 0) % 3 == 0 and "\nMasses\n" in text:
         # the unit (or, as LAMMPS' write_data does for other sections, a style) named behind the section keyword
         text = text.replace("\nMasses\n", "\nMasses  # g/mol\n", 1).replace("\nAtoms\n", "\nAtoms # %s\n" % case["atom_format"], 1)
@@ -258,6 +270,8 @@ def run_case(case, ctx):
 
 def requirements(stats, tier):
     need = []
+    if stats.get("files_with_masses_in_exponent_notation") < (5 if tier == "quick" else 500):
+        need.append("files with masses in exponent notation: %d" % stats.get("files_with_masses_in_exponent_notation"))
     if stats.get("files_with_a_comment_behind_the_section_keywords") < (5 if tier == "quick" else 500):
         need.append("files with a comment behind the section keywords: %d" % stats.get("files_with_a_comment_behind_the_section_keywords"))
     if stats.get("direct.single_calls") < 2000:
